@@ -6,5 +6,5 @@ AllFalse == [n \in Node |-> FALSE]
 NoWrap == [n \in Node |-> "none"]
 NoFail == [n \in Node |-> "none"]
 Fam == {[single |-> g, selfOpt |-> AllFalse, slice |-> h, sliceOpt |-> AllFalse, lazy |-> {},
-         wrap |-> NoWrap, fail |-> NoFail, procs |-> <<>>, mode |-> [n \in Node |-> "normal"], rorder |-> <<>>] : g \in [Node -> SUBSET Node], h \in [Node -> SUBSET Node]}
+         wrap |-> NoWrap, fail |-> NoFail, procs |-> <<>>, mode |-> [n \in Node |-> "normal"], rorder |-> <<>>, ilook |-> NoLook] : g \in [Node -> SUBSET Node], h \in [Node -> SUBSET Node]}
 =============================================================================
